@@ -23,10 +23,7 @@ ASSUMPTIONS = [
     "objects of many size classes alive between two hash calls (this is what exposed hash(super()) before f15e7d9)",
     "list.sort is modelled for fewer than 64 elements (count_run + binary insertion), which fixes which comparisons are made",
 ]
-PARTIAL = [
-    "order laws of Basis objects (inherited tuple comparison) and of MeshBasis objects - evaluated only "
-    "(ordlaws / trans / cmp lines on S and T tokens)",
-]
+PARTIAL = []
 TRUSTED = ["pattern-against-basis comparisons (Perm vs Basis etc.) are outside the modelled universe"]
 
 MESHK = "MBVC"
